@@ -1,5 +1,5 @@
 (* C02 - Loss recovery: any loss leaving k symbols per block still delivers the object. *)
-From FluteV Require Import Model.ObjRecv Model.Recv Spec.RecvSpec Spec.SessionSpec Proofs.RecvProofs Proofs.SessionProofs Proofs.C02Full Proofs.C02RS Proofs.C02Session.
+From FluteV Require Import Model.ObjRecv Model.Recv Spec.RecvSpec Spec.SessionSpec Proofs.RecvProofs Proofs.SessionProofs Proofs.C02Full Proofs.C02RS Proofs.C02Session Proofs.C02SessionRS.
 Open Scope N_scope.
 
 (* Object-level statement, proved for the No-Code scheme without content encoding (Proofs/C02Full.v).
@@ -417,3 +417,150 @@ Example C02_session_surprises :
      = ([POk; POk; POk; POk; POk; POk; POk], [7], [], [], delivered_log ++ [EvBuilder 7 WStore; EvOpen (7, 1%nat) true]).
 Proof. vm_compute. split; reflexivity. Qed.
 
+(* ---------------- the session level for the oracle schemes: Proofs/C02SessionRS.v ----------------
+   The receiver-level plumbing of C02Session.v does not depend on the FEC scheme: it is proved once over an object-level
+   interface (section SessIface: "attached and receiving" / "decoding before the FDT" invariants with their step, attach
+   and not-covered lemmas) and instantiated for No-Code (C02_session_via_interface re-derives the two statements above)
+   and for the invariant of Proofs/C02RS.v.  Premises = those of C02_rs_recoverable_delivers / C02_fq_recoverable_delivers
+   with max := cf_max_cache cfg, the oracle hypotheses included, + the session premises of C02_session_fdt_first_delivers
+   (fdt_pkt_ok, parse_fdt d = Some inst, fdt_live, toi <> 0, a_toi = toi).  No new hypothesis was needed. *)
+Theorem C02_rs_session_fdt_first_delivers : forall E parse_fdt cfg oti content rep toi md5 now pf id foti d inst pkts,
+  let L := lenN_ content in
+  rs_scheme_ok oti L -> rs_blocks_ok oti L -> toi <> 0 ->
+  fdt_pkt_ok pf id foti d -> parse_fdt d = Some inst -> fdt_live cfg inst pf now ->
+  fdt_entry_for (fi_files inst) (fi_oti inst) toi oti L md5 ->
+  writer_accepts E toi -> writes_succeed E toi -> md5_good E content md5 ->
+  rs_oracle_mds E oti content rep toi ->
+  rs_mem_need oti L <= cf_max_cache cfg -> nb_blocks_of oti L <= 4097 ->
+  Forall (fun p => a_toi p = toi) pkts ->
+  Forall (fun p => rs_genuine_pkt oti content rep p = true) pkts ->
+  rs_close_flag_ok oti L pkts ->
+  rs_recoverable oti L pkts = true ->
+  let '(_, r, c) := recv_run E parse_fdt cfg recv0 (map (fun p => RvPush p now) (pf :: pkts)) ctx0 in
+  session_delivered cfg inst content toi r c.
+Proof. exact rs_session_fdt_first_delivers. Qed.
+Print Assumptions C02_rs_session_fdt_first_delivers.
+
+(* FDT late, Reed-Solomon: pkts1 (EXT_FTI = (oti, L), no EXT_CENC, no close-object flag) arrive before the FDT instance
+   and are decoded - the decoder oracle is consulted - without writer; the instance opens the writer and flushes *)
+Theorem C02_rs_session_fdt_late_delivers : forall E parse_fdt cfg oti content rep toi md5 now pf id foti d inst pkts1 pkts2,
+  let L := lenN_ content in
+  rs_scheme_ok oti L -> rs_blocks_ok oti L -> toi <> 0 ->
+  fdt_pkt_ok pf id foti d -> parse_fdt d = Some inst -> fdt_live cfg inst pf now ->
+  fdt_entry_for (fi_files inst) (fi_oti inst) toi oti L md5 ->
+  writer_accepts E toi -> writes_succeed E toi -> md5_good E content md5 ->
+  rs_oracle_mds E oti content rep toi ->
+  rs_mem_need oti L <= cf_max_cache cfg -> nb_blocks_of oti L <= 4097 ->
+  Forall (fun p => a_toi p = toi) (pkts1 ++ pkts2) ->
+  Forall (fun p => rs_genuine_pkt oti content rep p = true) (pkts1 ++ pkts2) ->
+  Forall (fun p => a_oti p = Some (oti, L) /\ a_cenc p = None /\ a_close_obj p = false) pkts1 ->
+  rs_close_flag_ok oti L (pkts1 ++ pkts2) ->
+  rs_recoverable oti L (pkts1 ++ pkts2) = true ->
+  let '(_, r, c) := recv_run E parse_fdt cfg recv0 (map (fun p => RvPush p now) (pkts1 ++ pf :: pkts2)) ctx0 in
+  session_delivered cfg inst content toi r c.
+Proof. exact rs_session_fdt_late_delivers. Qed.
+Print Assumptions C02_rs_session_fdt_late_delivers.
+
+Theorem C02_fq_session_fdt_first_delivers : forall E parse_fdt cfg oti content enc toi md5 now pf id foti d inst pkts,
+  let L := lenN_ content in
+  fq_scheme_ok oti L -> fq_blocks_ok oti L -> toi <> 0 ->
+  fdt_pkt_ok pf id foti d -> parse_fdt d = Some inst -> fdt_live cfg inst pf now ->
+  fdt_entry_for (fi_files inst) (fi_oti inst) toi oti L md5 ->
+  writer_accepts E toi -> writes_succeed E toi -> md5_good E content md5 ->
+  fq_oracle_sound E oti content enc toi -> fq_oracle_complete E oti content enc toi ->
+  L <= cf_max_cache cfg -> nb_blocks_of oti L <= 4097 ->
+  Forall (fun p => a_toi p = toi) pkts ->
+  Forall (fun p => fq_genuine_pkt oti content enc p = true) pkts ->
+  Forall (fun p => fq_sized_pkt oti p = true) pkts ->
+  fq_close_flag_ok oti L pkts ->
+  fq_recoverable oti L pkts = true ->
+  let '(_, r, c) := recv_run E parse_fdt cfg recv0 (map (fun p => RvPush p now) (pf :: pkts)) ctx0 in
+  session_delivered cfg inst content toi r c.
+Proof. exact fq_session_fdt_first_delivers. Qed.
+Print Assumptions C02_fq_session_fdt_first_delivers.
+
+Theorem C02_fq_session_fdt_late_delivers : forall E parse_fdt cfg oti content enc toi md5 now pf id foti d inst pkts1 pkts2,
+  let L := lenN_ content in
+  fq_scheme_ok oti L -> fq_blocks_ok oti L -> toi <> 0 ->
+  fdt_pkt_ok pf id foti d -> parse_fdt d = Some inst -> fdt_live cfg inst pf now ->
+  fdt_entry_for (fi_files inst) (fi_oti inst) toi oti L md5 ->
+  writer_accepts E toi -> writes_succeed E toi -> md5_good E content md5 ->
+  fq_oracle_sound E oti content enc toi -> fq_oracle_complete E oti content enc toi ->
+  L <= cf_max_cache cfg -> nb_blocks_of oti L <= 4097 ->
+  Forall (fun p => a_toi p = toi) (pkts1 ++ pkts2) ->
+  Forall (fun p => fq_genuine_pkt oti content enc p = true) (pkts1 ++ pkts2) ->
+  Forall (fun p => fq_sized_pkt oti p = true) (pkts1 ++ pkts2) ->
+  Forall (fun p => a_oti p = Some (oti, L) /\ a_cenc p = None /\ a_close_obj p = false) pkts1 ->
+  fq_close_flag_ok oti L (pkts1 ++ pkts2) ->
+  fq_recoverable oti L (pkts1 ++ pkts2) = true ->
+  let '(_, r, c) := recv_run E parse_fdt cfg recv0 (map (fun p => RvPush p now) (pkts1 ++ pf :: pkts2)) ctx0 in
+  session_delivered cfg inst content toi r c.
+Proof. exact fq_session_fdt_late_delivers. Qed.
+Print Assumptions C02_fq_session_fdt_late_delivers.
+
+(* sanity check of the interface: the No-Code statements above, obtained through it *)
+Theorem C02_session_via_interface :
+  (forall E parse_fdt cfg oti content toi md5 now pf id foti d inst pkts,
+   let L := lenN_ content in
+   nocode_ok oti L -> toi <> 0 ->
+   fdt_pkt_ok pf id foti d -> parse_fdt d = Some inst -> fdt_live cfg inst pf now ->
+   fdt_entry_for (fi_files inst) (fi_oti inst) toi oti L md5 ->
+   writer_accepts E toi -> writes_succeed E toi -> md5_good E content md5 ->
+   L <= cf_max_cache cfg -> nb_blocks_of oti L <= 4097 ->
+   Forall (fun p => a_toi p = toi) pkts ->
+   Forall (fun p => genuine_pkt oti content p = true) pkts ->
+   close_flag_ok oti L pkts ->
+   recoverable oti L pkts = true ->
+   let '(_, r, c) := recv_run E parse_fdt cfg recv0 (map (fun p => RvPush p now) (pf :: pkts)) ctx0 in
+   session_delivered cfg inst content toi r c)
+  /\ (forall E parse_fdt cfg oti content toi md5 now pf id foti d inst pkts1 pkts2,
+   let L := lenN_ content in
+   nocode_ok oti L -> toi <> 0 ->
+   fdt_pkt_ok pf id foti d -> parse_fdt d = Some inst -> fdt_live cfg inst pf now ->
+   fdt_entry_for (fi_files inst) (fi_oti inst) toi oti L md5 ->
+   writer_accepts E toi -> writes_succeed E toi -> md5_good E content md5 ->
+   L <= cf_max_cache cfg -> nb_blocks_of oti L <= 4097 ->
+   Forall (fun p => a_toi p = toi) (pkts1 ++ pkts2) ->
+   Forall (fun p => genuine_pkt oti content p = true) (pkts1 ++ pkts2) ->
+   Forall (fun p => a_oti p = Some (oti, L) /\ a_cenc p = None /\ a_close_obj p = false) pkts1 ->
+   close_flag_ok oti L (pkts1 ++ pkts2) ->
+   recoverable oti L (pkts1 ++ pkts2) = true ->
+   let '(_, r, c) := recv_run E parse_fdt cfg recv0 (map (fun p => RvPush p now) (pkts1 ++ pf :: pkts2)) ctx0 in
+   session_delivered cfg inst content toi r c).
+Proof. exact (conj nocode_session_fdt_first_via_iface nocode_session_fdt_late_via_iface). Qed.
+Print Assumptions C02_session_via_interface.
+
+(* non-vacuity through recv_run with the XOR single-parity decoder xor_dec (env_xor), receive-once: the FDT packet, then
+   the Reed-Solomon packets (block 0 from its parity and one source symbol, block 1 from its parity alone, shuffled,
+   duplicated); the same with three packets (EXT_FTI) before the FDT packet; both also follow from the theorems
+   (rs_session_by_theorem, rs_session_late_by_theorem, rs129_session_by_theorem, fq_session_by_theorem) *)
+Example C02_rs_session_example :
+  sess_env env_xor (txr_parse exr_oti 5) (tx_cfg true false) (tx_fdt None :: exr_pkts)
+  = ([POk; POk; POk; POk; POk; POk], [], [7], [], delivered_log)
+  /\ sess_env env_xor (txr_parse exr_oti 5) (tx_cfg true false)
+       (map (with_fti_of exr_oti 5) (firstn 3 exr_pkts) ++ tx_fdt None :: skipn 3 exr_pkts)
+     = ([POk; POk; POk; POk; POk; POk], [], [7], [], delivered_log)
+  /\ sess_env env_xor (txr_parse exu_oti 5) (mk_rcfg 5 6 true false) (tx_fdt None :: exu_pkts)
+     = ([POk; POk; POk; POk], [], [7], [], delivered_log129)
+  /\ sess_env env_sys (txr_parse exq_oti 5) (tx_cfg true false) (tx_fdt None :: exq_pkts)
+     = ([POk; POk; POk; POk; POk; POk], [], [7], [], delivered_log).
+Proof. vm_compute. repeat split. Qed.
+
+Example C02_rs_session_by_theorem :
+  let '(_, r, c) := recv_run env_xor (txr_parse exr_oti 5) (tx_cfg true false) recv0
+                             (map (fun p => RvPush p 100%Z) (tx_fdt None :: exr_pkts)) ctx0 in
+  session_delivered (tx_cfg true false) (txr_inst exr_oti 5) exr_content 7 r c.
+Proof. exact rs_session_by_theorem. Qed.
+
+(* the guards lifted: FEC 129 with cf_max_cache = transfer length 5 < rs_mem_need = 6 is Errored and error-listed.
+   And a receiver-level loss outside the theorems: packets WITHOUT EXT_FTI before the FDT instance are cached, the cache
+   is bounded by the same cf_max_cache and counts repair symbols and duplicates: with cf_max_cache = 5 = rs_mem_need the
+   object is Errored before the FDT arrives; the same packets after the FDT instance are delivered with that limit *)
+Example C02_rs_session_guards :
+  sess_env env_xor (txr_parse exu_oti 5) (mk_rcfg 5 5 true false) (tx_fdt None :: exu_pkts)
+  = ([POk; POk; POk; POk], [], [], [7], [EvBuilder 7 WStore; EvOpen (7, 0%nat) true; EvError (7, 0%nat)])
+  /\ sess_env env_xor (txr_parse exr_oti 5) (mk_rcfg 5 5 true false) (exr_pkts ++ [tx_fdt None])
+     = ([POk; POk; POk; POk; POk; POk], [], [], [7], [])
+  /\ sess_env env_xor (txr_parse exr_oti 5) (mk_rcfg 5 5 true false) (tx_fdt None :: exr_pkts)
+     = ([POk; POk; POk; POk; POk; POk], [], [7], [], delivered_log).
+Proof. vm_compute. repeat split. Qed.
